@@ -217,6 +217,13 @@ func init() {
 				{Video: []cdc{vp8, {Mime: "video/VP9", Clock: 90000, Line: "profile-id=0", PT: 98}}, Multi: true, Answer: true,
 					Pre:    []pcRound{{Remote: []rsec{{Kind: "video", Dir: 3, Codecs: []rcodec{{Name: "VP8", Clock: 90000, PT: 100}, {Name: "VP9", Clock: 90000, Line: "profile-id=0", PT: 101}}}}}},
 					Remote: []rsec{{Kind: "video", Dir: 3, Codecs: []rcodec{{Name: "VP9", Clock: 90000, Line: "profile-id=0", PT: 101}}}}},
+				// outside c16_same_codec_partial's guard (c16_same_codec_refuted): H264 offered with
+				// one fmtp line under 100 (clock rate 90000) and 101 (48000); the 48000 entry is
+				// answered under 100 (finding answer-pt-of-fmtp-equivalent-offered-codec)
+				{Video: []cdc{{Mime: "video/H264", Clock: 90000, Line: "packetization-mode=1;profile-level-id=42e01f", PT: 102}}, Multi: true, Answer: true,
+					Remote: []rsec{{Kind: "video", Codecs: []rcodec{
+						{Name: "H264", Clock: 90000, Line: "packetization-mode=1;profile-level-id=42e01f", PT: 100},
+						{Name: "H264", Clock: 48000, Line: "packetization-mode=1;profile-level-id=42e01f", PT: 101}}}}},
 				// transceiver created from the remote description, RTX remapped
 				{Video: []cdc{vp8, {Mime: "video/rtx", Clock: 90000, Line: "apt=96", PT: 97}}, Multi: true, Answer: true,
 					Remote: []rsec{{Kind: "video", Codecs: []rcodec{{Name: "VP8", Clock: 90000, PT: 100}, {Name: "rtx", Clock: 90000, Line: "apt=100", PT: 101}}}}},
